@@ -48,6 +48,7 @@ var (
 		LocksRewritten  int      `json:"locks_rewritten"`
 		LocksSkipped    int      `json:"locks_skipped"`
 		OnceRewritten   int      `json:"once_rewritten"`
+		SyncSites       int      `json:"sync_adjacent_sites"`
 		GoStmts         int      `json:"go_statements"`
 		ChanOps         int      `json:"channel_ops"`
 		SyncOtherUses   []string `json:"sync_other_uses,omitempty"`
@@ -218,14 +219,53 @@ func instrumentFile(p *packages.Package, f *ast.File, src []byte, root string) [
 		}
 		return fmt.Sprintf("%s:%d", r, position.Line)
 	}
+	// touchesSync: the statement itself (not statements nested in its blocks or
+	// function literals) calls into sync or sync/atomic.
+	touchesSync := func(st ast.Stmt) bool {
+		found := false
+		ast.Inspect(st, func(n ast.Node) bool {
+			switch x := n.(type) {
+			case *ast.BlockStmt, *ast.FuncLit:
+				return false
+			case *ast.CallExpr:
+				var obj types.Object
+				switch f := x.Fun.(type) {
+				case *ast.SelectorExpr:
+					if s := p.TypesInfo.Selections[f]; s != nil {
+						obj = s.Obj()
+					} else {
+						obj = p.TypesInfo.Uses[f.Sel]
+					}
+				case *ast.Ident:
+					obj = p.TypesInfo.Uses[f]
+				}
+				if obj != nil && obj.Pkg() != nil && (obj.Pkg().Path() == "sync" || obj.Pkg().Path() == "sync/atomic") {
+					found = true
+				}
+			}
+			return !found
+		})
+		return found
+	}
 	addYields := func(list []ast.Stmt) {
+		prevSync := false
 		for _, s := range list {
 			switch s.(type) {
 			case *ast.CaseClause, *ast.CommClause:
 				continue
 			}
 			siteN++
-			sites = append(sites, fmt.Sprintf("%d %s", siteN, rel(s.Pos())))
+			flag := "-"
+			ts := touchesSync(s)
+			if ts {
+				flag = "S" // the statement synchronises
+				summary.SyncSites++
+			} else if prevSync {
+				flag = "A" // first statement after a synchronising one: the gap between two critical sections
+				summary.SyncSites++
+			}
+			prevSync = ts
+			sites = append(sites, fmt.Sprintf("%d %s %s", siteN, rel(s.Pos()), flag))
 			edits = append(edits, edit{off: off(s.Pos()), text: fmt.Sprintf("%s.Yield(%d); ", rtName, siteN)})
 		}
 	}
